@@ -3,6 +3,7 @@ Every tabulated event x gender spellings x letter case x every integer and half-
 last column) x a performance grid around the open best, through the public wrappers and through grader objects (fresh and shared,
 both call orders); oracle = independent lookup in the JSON tables (linear interpolation between age columns, last column beyond)."""
 import json, os, math
+from checks import crossapi
 from vlib import common
 from vlib import orderpass
 from vlib.common import Report, Violation, HarnessError, Acc, pmap, merge
@@ -311,6 +312,7 @@ def run(tier):
           (W[2], ('m', '100')), (W[2], ('f', 'PV')), (W[2], ('f', 'PV'), dict(year=2015)), (W[2], ('m', 'MAR')),
           (W[3], ('M', 50, '100')), (W[3], ('F', 60, 'HJ')), (W[3], ('M', 34, '100')), (W[4], ('f', 60, 'HJ', 1.4)), (W[4], ('m', 45, '1500', 280.0))]
     orderpass.part(rep, oc, 'age-grading call-order pass')
+    crossapi.part(rep, PID, tier)
     return rep.finish()
 
 
